@@ -51,7 +51,7 @@ func (jenny *Converter) generateConverter(context languages.Context, builder ast
 			return ""
 		}
 
-		return imports.Add(pkg, jenny.Config.importPath(pkg))
+		return imports.Add(formatImportAlias(pkg), jenny.Config.importPath(pkg))
 	}
 	formatter := builderTypeFormatter(jenny.Config, context, imports, typeImportMapper)
 
